@@ -18,6 +18,18 @@ What one run does
      CallGet / CallLookup / Return, the critical section is replayed by the design actions as
      hidden steps (TLC searches the linearization), the property invariants are evaluated on
      every reconstructed state, and each get() result must be classified as its own kind.
+  3b. Contention phase (added after an independently written change - AddrMap behind an RwLock, get() checks
+     for the key under the read lock and inserts under the write lock without re-checking - was missed by the
+     random hammering, which rarely has two threads inside get() on the same FRESH key at the same instant):
+     4 (quick) / 6 threads are released together by a spin barrier in each of 20 000 / 150 000 rounds onto
+     get(kind, key_r) of a brand-new key, then look their address up again.  Each round is an independent
+     sub-history (own key); the harness emits every round whose observations disagree (several addresses for
+     the key, a lookup not answering the key, an address seen in another round; capped at 10) plus 60 / 200
+     evenly spaced agreeing rounds, and TLC validates the emitted call/return records against the spec.  The
+     spec switch SplitGet = TRUE is that very variant and is refuted by TLC.  Measured with that change applied
+     (bin/seedtest, seeded/_incoming/C18/patch.diff): 5 269 - 11 107 of 40 000 rounds disagree (5 runs) and
+     744 - 1 457 of 5 000 (5 runs), i.e. 13 - 29 % of the rounds on a loaded 16-core box, so 20 000 rounds catch it
+     essentially always; the check reported VIOLATION class address_changed.  Unchanged tree: 0 disagreeing rounds.
   4. Mode A: TLC prints the classification table (189 abstract addresses: family x position of a
      deviating prefix byte x subnet id); the harness concretises each row several ways (+1/-1
      deviation, host bits all-0 / all-1 / random, ports) and calls the real
@@ -74,9 +86,9 @@ def run(ctx):
     # 1. design
     mc = ctx.pick(
         dict(BASE, Threads=S(["t1", "t2"]), Kinds=S(["relay"]), Keys=S(["k1", "k2"]), Hosts=S(["h1", "h2", "h3"]), MaxCalls=2,
-             Locked="TRUE", Unique="TRUE"),
+             Locked="TRUE", Unique="TRUE", SplitGet="FALSE"),
         dict(BASE, Threads=S(["t1", "t2", "t3"]), Kinds=S(["relay"]), Keys=S(["k1", "k2"]), Hosts=S(["h1", "h2", "h3"]), MaxCalls=2,
-             Locked="TRUE", Unique="TRUE"))
+             Locked="TRUE", Unique="TRUE", SplitGet="FALSE"))
     ctx.tlc("socket", "MappedAddrs", cfg="MappedAddrs.cfg", mode="mc", constants={k: v for k, v in mc.items() if k not in BASE},
             timeout=3000, require_actions=["CallGet", "CallLookup", "Acquire", "GetLookup", "GetGenerate", "GetInsertFwd",
                                            "GetInsertRev", "LookupRev", "Release", "Return"])
@@ -84,6 +96,9 @@ def run(ctx):
     ctx.tlc("socket", "MappedAddrs", cfg="MappedAddrs_unlocked.cfg", mode="mc", workers=2, coverage=False,
             expect_violation="ReturnedInjective")
     ctx.tlc("socket", "MappedAddrs", cfg="MappedAddrs_nounique.cfg", mode="mc", workers=2, coverage=False,
+            expect_violation="ReturnedInjective")
+    # ... and the read-then-write-lock variant of get(): miss check and insert in two critical sections
+    ctx.tlc("socket", "MappedAddrs", cfg="MappedAddrs_splitget.cfg", mode="mc", workers=2, coverage=False,
             expect_violation="ReturnedInjective")
     # growth (thorough only): SendPath.tla composes classification + reverse lookups into the destination -> path step of
     # Sender::poll_send, with all three maps and concurrent get()s (1.27e6 states; model-checked only, see its header)
@@ -138,6 +153,9 @@ def run(ctx):
                     "gets": len(gets)})
     else:
         explain(ctx, trace, res)
+    # 3b. contention phase: K threads released together by a spin barrier onto get() of one brand-new key per round
+    if not ctx.replay:
+        contention(ctx, ctx.pick(4, 6), ctx.pick(20000, 150000), ctx.pick(60, 200))
     # binding self-tests: a corrupted / shortened accepted trace must be rejected
     if res.ok and not ctx.replay:
         selftests(ctx, trace, ctx.pick(1, 4))
@@ -147,6 +165,26 @@ def run(ctx):
     ctx.assume("a call's critical section lies between its call record and its ret record (sequence numbers are taken before the "
                "call and after it returned)")
     ctx.assume("narrowing the generated host part (HOST_SPACE hook) changes only which candidates the generator proposes")
+
+
+def contention(ctx, threads, rounds, sample):
+    """Races on fresh keys.  The harness runs all rounds and emits, as independent `reset`-separated segments, every
+    round whose observations disagree (capped) plus an evenly spaced sample of the others; the verdict on the emitted
+    call/return records is TLC's (trace validation against MappedAddrs, invariants on every reconstructed state)."""
+    inp = ctx.write_ndjson("c18-contend.in", [{"threads": threads, "rounds": rounds, "sample": sample, "max_suspicious": 10}])
+    outp = ctx.path("c18-contend.ndjson")
+    out, _ = ctx.run_bin("vh_socktx", ["c18", "--mode", "contend", "--in", inp, "--out", outp])
+    summ = json.loads(out.strip().splitlines()[-1])
+    trace = ctx.read_ndjson(outp)
+    res = validate(ctx, trace, "c18-contend.ndjson")
+    nseg = sum(1 for r in trace if r["ev"] == "reset")
+    ctx.cov["contention"] = dict(summ, threads=threads, segments_validated=nseg if res.ok else 0)
+    if res.ok:
+        ctx.cov["traces_validated_against_impl"] -= 1
+        for i in range(nseg):
+            ctx.count(case_key=["contend", i], nontrivial=True)
+    else:
+        explain(ctx, trace, res, extra={"rounds_disagreeing": summ["suspicious"], "rounds": summ["rounds"]})
 
 
 def universe(trace):
@@ -170,7 +208,7 @@ def _trace(ctx, path, u):
     return res
 
 
-def explain(ctx, trace, res):
+def explain(ctx, trace, res, extra=None):
     """Turns an invariant violation / rejection into a report with a class for the first unexplained record."""
     if res.violated:
         ctx.report({"kind": "invariant", "invariant": res.violated},
@@ -195,9 +233,11 @@ def explain(ctx, trace, res):
         cls = "lookup_none" if r["rkey"] == "nokey" else "lookup_wrong_key"
     elif r["ev"] == "call" and r["name"] == "get":
         cls = "address_shared_or_changed"
+    end = next((i for i in range(at - 1, len(trace)) if trace[i]["ev"] == "reset"), len(trace) - 1)
     ctx.report({"kind": "trace_rejected", "class": cls, "op": r["name"], "map": r["kind"]},
-               "the real call/return history is not a behaviour of the AddrMap spec: record %d %s" % (at, json.dumps(r)),
-               {"trace": trace[start:], "rejected_at": at - start})
+               "the real call/return history is not a behaviour of the AddrMap spec: record %d %s%s"
+               % (at, json.dumps(r), " (%s)" % json.dumps(extra) if extra else ""),
+               {"trace": trace[start:end + 1], "rejected_at": at - start})
 
 
 def selftests(ctx, trace, n):
